@@ -75,6 +75,21 @@ def run(ctx):
                       "script": [{"op": "adopt", "p": "c1"}, {"op": "adopt", "p": "h1"}, {"op": "accept"}, {"op": "wait_running"}, {"op": "wait_start", "p": "c1"}, {"op": "wait_start", "p": "h1"},
                                  {"op": "adopt", "p": "late", "ctx": "ownloop:h1"}, {"op": "wait_start", "p": "late"}, {"op": "seg", "p": "late", "hold": 0.002}, {"op": "seg", "p": "c1", "hold": 0.002},
                                  {"op": "adopt", "p": "late2", "ctx": "ownloop:h1"}, {"op": "wait_start", "p": "late2"}, {"op": "step", "p": "late2"}, {"op": "polls", "n": 2}], "shape": "targeted-adopt-from-private-loop"})
+    # a coroutine payload adopts another payload of ITS flavour in the middle of a synchronous
+    # section: the adopted payload does not run before the section is over
+    for f in ("asyncio", "trio"):
+        extra.append({"seed": ctx.seed, "jitter": 0.0, "payloads": {"c1": {"flavour": f}, "c2": {"flavour": f}, "late": {"flavour": f}, "late2": {"flavour": f, "plaincall": True}},
+                      "script": [{"op": "adopt", "p": "c1"}, {"op": "adopt", "p": "c2"}, {"op": "accept"}, {"op": "wait_running"}, {"op": "wait_start", "p": "c1"}, {"op": "wait_start", "p": "c2"},
+                                 {"op": "seg", "p": "c1", "hold": 0.01, "adopt": "late"}, {"op": "wait_start", "p": "late"}, {"op": "seg", "p": "c2", "hold": 0.01, "adopt": "late2"}, {"op": "wait_start", "p": "late2"},
+                                 {"op": "seg", "p": "late", "hold": 0.002}, {"op": "step", "p": "late2"}, {"op": "step", "p": "c1"}, {"op": "polls", "n": 2}], "shape": "targeted-adopt-inside-section"})
+    # execute() from a worker thread of a thread payload's PRIVATE loop (trio.to_thread /
+    # run_in_executor): the executed coroutine payload still runs in the runtime's own loop
+    extra.append({"seed": ctx.seed, "jitter": 0.0, "payloads": {"c1": {"flavour": "asyncio"}, "t1": {"flavour": "trio"}, "h1": {"flavour": "threading"},
+                                                               "x1p": {"flavour": "trio"}, "x2p": {"flavour": "asyncio"}, "x3p": {"flavour": "trio"}, "x4p": {"flavour": "asyncio"}},
+                  "script": [{"op": "adopt", "p": "c1"}, {"op": "adopt", "p": "t1"}, {"op": "adopt", "p": "h1"}, {"op": "accept"}, {"op": "wait_running"}, {"op": "wait_start", "p": "c1"}, {"op": "wait_start", "p": "t1"}, {"op": "wait_start", "p": "h1"},
+                             {"op": "execute", "p": "x1p", "ctx": "owntrio:h1", "how": "val:x"}, {"op": "execute", "p": "x2p", "ctx": "owntrio:h1", "how": "val:1"},
+                             {"op": "execute", "p": "x3p", "ctx": "ownloop:h1", "how": "exc:UserExc"}, {"op": "execute", "p": "x4p", "ctx": "ownloop:h1", "how": "val:x"},
+                             {"op": "seg", "p": "t1", "hold": 0.002}, {"op": "step", "p": "c1"}, {"op": "polls", "n": 2}], "shape": "targeted-execute-from-private-loop-worker"})
     # a long blocking execute() is in flight while coroutine payloads adopt and step
     for f in scen.FLAVS:
         extra.append({"seed": ctx.seed, "jitter": 0.0, "payloads": {"c1": {"flavour": "asyncio"}, "t1": {"flavour": "trio"}, "x1p": {"flavour": f}, "late": {"flavour": "threading"}, "late2": {"flavour": "asyncio"}},
